@@ -11,8 +11,9 @@ import traceback
 from typing import Any, Dict, List, Optional, Tuple
 
 HERE = os.path.dirname(os.path.dirname(os.path.abspath(__file__)))
-EVID = os.path.join(HERE, "evidence")
-REPLAYS = os.path.join(HERE, "replays")
+# runs against a scratch tree (VERIF_REPO, used for the seeded changes) must not overwrite the evidence of /repo itself
+EVID = os.environ.get("VERIF_EVIDENCE_DIR") or os.path.join(HERE, "evidence")
+REPLAYS = os.environ.get("VERIF_REPLAY_DIR") or os.path.join(HERE, "replays")
 
 TRUSTED_BASE = [
     "pyvc (the self-built VC generator in /verif/pyvc: ast -> path-wise VCs; guarded by canaries, precondition "
@@ -83,7 +84,7 @@ def _worker(args: Tuple[str, float, str]) -> Dict[str, Any]:
         return {"target": target, "status": rep.status, "reason": rep.reason, "paths": rep.paths,
                 "infeasible": rep.infeasible, "seconds": time.time() - t0, "obligations": obs,
                 "calls_by_contract": rep.calls_by_contract, "inlined": rep.inlined, "trusted": c.trusted,
-                "pre_witness": rep.pre_witness}
+                "pre_witness": rep.pre_witness, "partial_raises": [list(x) for x in getattr(rep, "partial_raises", [])]}
     except Exception as e:
         return {"target": target, "status": "error", "reason": f"{type(e).__name__}: {e}\n{traceback.format_exc()[-1200:]}",
                 "paths": 0, "infeasible": 0, "seconds": time.time() - t0, "obligations": [], "calls_by_contract": [],
@@ -245,7 +246,9 @@ def run_property(pid: str, tier: str, seed: int) -> int:
         "distinct_nontrivial": max(2, discharged),
     }
     ev = {"property_id": pid, "tier": tier, "seed": seed, "level": level, "coverage": cov,
-          "assumptions": TRUSTED_BASE + [f"assumed contract (body not verified): {t}" for t in trusted],
+          "assumptions": TRUSTED_BASE + [f"assumed contract (body not verified): {t}" for t in trusted]
+                         + [f"partial correctness w.r.t. {rn} raised by {t.split('::')[-1]} (unconditional raises clause: clauses of the "
+                            f"callers speak about normal returns)" for t, rn in sorted({tuple(x) for r in results for x in r.get("partial_raises", [])})],
           "wall_s": round(wall, 2), "violations": len(violations)}
     os.makedirs(EVID, exist_ok=True)
     json.dump(ev, open(os.path.join(EVID, f"{pid}.json"), "w"), indent=1, default=str)
